@@ -383,6 +383,7 @@ PROPERTIES = {
             ('C12-R6', cextra.rule_same_name_forwarding, 'quick'),
             ('C20-R3', c20.rule_translation_table, 'quick'),
             ('C02-R9', cextra.rule_references_table, 'quick'),  # escapes must consume what they escape (SPLIT pre-pass)
+            ('C10-R4', c10.rule_recovery_pairing, 'quick'),  # look-ahead / recovery pairing: an escaped character must not be swallowed
         ],
     },
     'C10': {
